@@ -70,6 +70,14 @@ def predict(program, cfg):
         name = inst["name"]
         tags = eff_tags(inst)
         sel = formula_ok(cfg, tags) and name_ok(cfg, name)
+        if state.get("skip_rest") and (state["skip_rest"] in inst["path"]):
+            # a step called feature.skip() / rule.skip(): "skip the remaining parts" -- nothing of them is executed any more
+            p.selected[name] = False
+            p.started[name] = False
+            p.step_status[name] = [{"skipped"} for _ in inst["steps"]]
+            p.scen_status[name] = {"skipped"}
+            p.scen_failed[name] = False
+            return False
         p.selected[name] = sel
         p.started[name] = True
         steps = inst["steps"]
@@ -125,10 +133,13 @@ def predict(program, cfg):
                             sts.append({"pending"})
                             failed = True
                             running = True if cafs else False
-                    elif oc == "skip":
+                    elif oc in ("skip", "skip_feature", "skip_rule"):
                         sts.append({"skipped"})
                         skipped_by_step = True
                         running = False
+                        if oc != "skip":
+                            path = inst["path"]
+                            state["skip_rest"] = path[-1] if (oc == "skip_rule" and len(path) > 1) else path[0]
                     elif oc == "abort":
                         sts.append({"passed"})
                         p.aborted = True
